@@ -435,6 +435,10 @@ func GenProgram(t *rapid.T, prof *Profile, doc Doc) *Program {
 			}
 			if g.pct(prof.PDeployFail, "deployfail") {
 				s.Deploy = &Deploy{Mode: Lit("fail")}
+			} else if g.pct(prof.RuntimeErr, "fanin_rterr") {
+				// a deploy-time expression that fails at run time: all of these are evaluated in the very first
+				// notification round, more of them than the engine's error channel holds
+				s.Deploy = &Deploy{Latency: Op("/", Lit(int64(5)), Ref("input", "zero"))}
 			}
 		} else if g.pct(prof.Foreach, "foreach") {
 			name := fmt.Sprintf("sub%d.yaml", i)
